@@ -141,6 +141,18 @@ def generate(rng, n, tier="quick"):
          [("main", "{{x}}|{{*setctx other}}{{x}}|{{lookup this \"x\"}}")], {"x": "old", "other": {"x": "new"}}, ("out", "old|new|new")),
         ("local-after-only", {"escape": "none", "helpers": [{"name": "uh", "kind": "mark", "tag": "U"}], "decorators": [{"name": "sethelper", "kind": "sethelper"}]},
          [("main", "{{uh 1}}|{{*sethelper \"uh\" \"L\"}}{{uh 1}}")], {}, ("out", "[U:uh:1]|[L:uh:1]")),
+        # a LATER decorator for the same name applies to what is rendered after IT: bare, with arguments, block, subexpression
+        ("local-twice", {"escape": "none", "helpers": [{"name": "uh", "kind": "mark", "tag": "U"}], "decorators": [{"name": "sethelper", "kind": "sethelper"}]},
+         [("main", "{{uh 1}}|{{*sethelper \"uh\" \"A\"}}{{uh 1}}|{{*sethelper \"uh\" \"B\"}}{{uh 1}}{{#uh 2}}x{{/uh}}|{{*sethelper \"uh\" \"C\"}}{{uh}}{{#if (uh 3)}}y{{/if}}")], {},
+         ("out", "[U:uh:1]|[A:uh:1]|[B:uh:1][B:uh:2]x[/B]|[C:uh:]y")),
+        ("local-twice-no-registry-helper", {"escape": "none", "decorators": [{"name": "sethelper", "kind": "sethelper"}]},
+         [("main", "{{*sethelper \"lh\" \"A\"}}{{lh 1}}|{{*sethelper \"lh\" \"B\"}}{{lh 1}}|{{*sethelper \"lh\" \"A\"}}{{lh 1}}")], {"lh": "field"},
+         ("out", "[A:lh:1]|[B:lh:1]|[A:lh:1]")),
+        ("local-per-iteration", {"escape": "none", "decorators": [{"name": "sethelper", "kind": "sethelper"}]},
+         [("main", "{{#each xs}}{{*sethelper \"lh\" this}}{{lh @index}}{{/each}}|{{lh 9}}")], {"xs": ["A", "B", "C"]},
+         ("out", "[A:lh:0][B:lh:1][C:lh:2]|[C:lh:9]")),
+        ("ctx-twice", {"escape": "none", "decorators": [{"name": "setctx", "kind": "setctx"}]},
+         [("main", "{{x}}|{{*setctx a}}{{x}}|{{*setctx b}}{{x}}")], {"x": 0, "a": {"x": 1, "b": {"x": 2}}}, ("out", "0|1|2")),
         ("inline-after-only", {"escape": "none"}, [("p", "REG"), ("main", "{{> p}}|{{#*inline \"p\"}}INL{{/inline}}{{> p}}")], {}, ("out", "REG|INL")),
     ]
     for idn, cfg, templates, data, exp in extra:
